@@ -97,6 +97,7 @@ def run(ctx):
                 r.eq('%s:reply' % fnp, em[0].reply, row['reply'], site, why='the reply the specification pairs with this request')
             if row['ret'] is not None:
                 r.eq('%s:returns' % fnp, S.show(ret), row['ret'], site, why="exactly the values carried by the server's reply")
+            r.check('%s:error-propagated' % fnp, getattr(em[0], 'propagated', False), site, why="a failed call must fail the operation")
 
     with ctx.rule('R04.6', 'no unsolicited replies: the nowait bit on the wire agrees with whether the call waits', floor=40) as r:
         for row in T.ROWS:
